@@ -54,7 +54,7 @@ def layer_a(ctx):
     dflag_names = ['-7', '--write-all', '--per-constraint', '--no-per-constraint', '--no-output-fields',
                    '--interleave', '--index', '--int']
     for bits in itertools.product([0, 1], repeat=len(dflag_names)):
-        for of in (None, [], ['a'], ['a', 'b']):
+        for of in (None, [], ['a'], ['a', 'b'], ['x,y'], ['a', 'b,c d']):
             for tc in (None, 'strict'):
                 args = [n for n, b in zip(dflag_names, bits) if b] + (['-t', tc] if tc else [])
                 if of is not None:
